@@ -210,8 +210,12 @@ class Walker:
         # true-typed field given as false while its mask bit is set
         if not self.tl2:
             for f in fields:
-                if f.typ.kind == "true" and f.mask and f.mask[0].kind == "field" and present.get(f.name) is True and f.mask[0].val in present:
-                    out.append(("true-field-false-with-mask-bit-set", "reject", obj.replaced(f.name, False)))
+                if f.typ.kind == "true" and f.mask and f.mask[0].kind == "field" and present.get(f.name) is True:
+                    if f.mask[0].val in present:
+                        out.append(("true-field-false-with-mask-bit-set", "reject", obj.replaced(f.name, False)))
+                        if f.mask[0].val in removable and any(g is not f and g.mask and g.mask[0].kind == "field" and g.mask[0].val == f.mask[0].val and g.mask[1] == f.mask[1] and g.name in present for g in fields):
+                            # the mask itself is left out (it is implied): the bit is still set through a sibling field guarded by the same bit
+                            out.append(("true-field-false-with-mask-bit-implied-by-sibling", "reject", obj.without(f.mask[0].val).replaced(f.name, False)))
         # descend
         keys = [k for k, _ in obj]
         for k in ([keys[i] for i in self.pick_idx(len(keys), 3)] if keys else []):
